@@ -86,4 +86,6 @@ for (pid, name), case in CASES.items():
     case['all_signatures'] = sorted(set(sum(sigs, [])))
     d = os.path.join(ROOT, 'proxy', 'replay', pid)
     os.makedirs(d, exist_ok=True)
-    json.dump(case, open(os.path.join(d, 'known-%s.json' % name), 'w'), indent=1)
+    # findings that are still open keep the prefix known-, repaired ones are plain regression inputs (must pass)
+    prefix = 'known-' if name.split('-')[0] in ('F8', 'F14') else 'fixed-'
+    json.dump(case, open(os.path.join(d, '%s%s.json' % (prefix, name)), 'w'), indent=1)
